@@ -204,6 +204,55 @@ func (g *gen) cloneRevMessage(m *Message) {
 	g.p("")
 }
 
+// detBuild: a map with 0..mapN entries, symbolic pairwise-distinct keys over their full
+// domain (key ORDER is what determinism depends on) and fixed representative values (the
+// value's magnitude only multiplies varint-size paths).
+func (g *gen) detBuild(m *Message, f *Field) {
+	g.p("func vhDetBuild_%s_%s(x *%s, p string) {", m.GoName, f.GoName, m.GoName)
+	g.p("\tn := vhChoice(p+\".n\", %d)", g.mapN+2)
+	g.p("\tif n == %d {", g.mapN+1)
+	g.p("\t\tx.%s = %s{}", f.GoName, f.MapGo)
+	g.p("\t\treturn")
+	g.p("\t}")
+	g.p("\tif n > 0 {")
+	g.p("\t\tx.%s = %s{}", f.GoName, f.MapGo)
+	g.p("\t}")
+	g.p("\tvar keys []%s", f.Key.GoType)
+	g.p("\tfor i := 0; i < n; i++ {")
+	g.p("\t\tk := %s", g.symExpr(f.Key, "vhIdx(p+\".k\", i)", g.keyLen))
+	if g.tier != "thorough" {
+		// quick tier: keys in a window with a single varint length (the order of keys, not
+		// their encoded size, is what determinism depends on); thorough: full domain
+		switch f.Key.Kind {
+		case "int32", "int64", "sint32", "sint64":
+			g.p("\t\tvhAssume(k >= -64)")
+			g.p("\t\tvhAssume(k <= 63)")
+		case "uint32", "uint64":
+			g.p("\t\tvhAssume(k <= 127)")
+		}
+	}
+	g.p("\t\tfor _, o := range keys {")
+	g.p("\t\t\tvhAssume(k != o)")
+	g.p("\t\t}")
+	g.p("\t\tkeys = append(keys, k)")
+	if f.Val.Kind == "message" && f.Val.MsgName != "" {
+		g.p("\t\tv := &%s{}", f.Val.MsgName)
+		g.p("\t\tif i == 0 {")
+		g.p("\t\t\tvhFill_%s(v)", f.Val.MsgName)
+		g.p("\t\t}")
+		g.p("\t\tx.%s[k] = v", f.GoName)
+	} else {
+		g.p("\t\tif i == 0 {")
+		g.p("\t\t\tx.%s[k] = %s", f.GoName, g.concExpr(f.Val, 1))
+		g.p("\t\t} else {")
+		g.p("\t\t\tx.%s[k] = %s", f.GoName, g.concExpr(f.Val, 2))
+		g.p("\t\t}")
+	}
+	g.p("\t}")
+	g.p("}")
+	g.p("")
+}
+
 func (g *gen) detHarnesses(m *Message) {
 	n := m.GoName
 	// top-level map fields
@@ -211,7 +260,7 @@ func (g *gen) detHarnesses(m *Message) {
 		if f.Card == "map" {
 			g.p("func VH_C05_%s_%s() {", n, f.GoName)
 			g.p("\tx := &%s{}", n)
-			g.p("\tvhBuild_%s_%s(x, \"a\", 0)", n, f.GoName)
+			g.p("\tvhDetBuild_%s_%s(x, \"a\")", n, f.GoName)
 			g.p("\tvhC05_%s(x)", n)
 			g.p("}")
 			g.p("")
@@ -244,7 +293,7 @@ func (g *gen) detHarnesses(m *Message) {
 		g.p("func VH_C05_%s_via_%s() {", n, c.GoName)
 		g.p("\tx := &%s{}", n)
 		g.p("\tt := &%s{}", tn)
-		g.p("\tvhBuild_%s_%s(t, \"a\", 0)", tn, mf.GoName)
+		g.p("\tvhDetBuild_%s_%s(t, \"a\")", tn, mf.GoName)
 		switch c.Card {
 		case "singular":
 			g.p("\tx.%s = t", c.GoName)
@@ -293,6 +342,11 @@ func (g *gen) MiscSource(prop string, msgs []*Message, fieldFilter func(m *Messa
 		case "C05":
 			g.cloneRevMessage(m)
 			g.detDriver(m)
+			for _, f := range m.All {
+				if f.Card == "map" {
+					g.detBuild(m, f)
+				}
+			}
 		}
 	}
 	for _, m := range msgs {
